@@ -693,4 +693,193 @@ theorem collect_perm (mf : MergeFn) : ∀ (fuel : Nat) (m m' : Merger) (acc : Li
         | .ok (some e) => exact ih m1 m1' (e :: acc) h4 h2 h3
         | .mergeErr => exact ⟨rfl, h3⟩
 
+/-! ### F. A successful run with a partial merge function is a run with a total one
+
+A merge function that may fail is replaced by `totalize mf` (failures become `[]`): every call
+that succeeded is unchanged, so every sorter / merger call that returned `.ok` returns the same
+value.  This transfers the chunk facts of section C to arbitrary merge functions. -/
+
+/-- `mf` with its failures replaced by the empty value. -/
+def totalize (mf : MergeFn) : Bytes → List Bytes → Bytes := fun k vs => (mf k vs).getD []
+
+theorem totalize_of_some {mf : MergeFn} {k : Bytes} {vs : List Bytes} {v : Bytes}
+    (h : mf k vs = some v) : tot (totalize mf) k vs = some v := by
+  simp [totalize, h]
+
+theorem mergeGroups_totalize (mf : MergeFn) : ∀ (l : List Entry)
+    (cur : Option (Bytes × List Bytes)) (out : List Entry) (calls : List (Bytes × List Bytes))
+    (r : List Entry × List (Bytes × List Bytes)),
+    Sorter.mergeGroups mf l cur out calls = some r →
+    Sorter.mergeGroups (tot (totalize mf)) l cur out calls = some r := by
+  intro l
+  induction l with
+  | nil =>
+    intro cur out calls r h
+    cases cur with
+    | none => exact h
+    | some c =>
+      obtain ⟨k, vs⟩ := c
+      simp only [Sorter.mergeGroups] at h ⊢
+      cases hm : mf k vs with
+      | none => rw [hm] at h; cases h
+      | some m => rw [hm] at h; rw [totalize_of_some hm]; exact h
+  | cons e rest ih =>
+    intro cur out calls r h
+    obtain ⟨k, v⟩ := e
+    cases cur with
+    | none => simp only [Sorter.mergeGroups] at h ⊢; exact ih _ _ _ _ h
+    | some c =>
+      obtain ⟨ck, vs⟩ := c
+      simp only [Sorter.mergeGroups] at h ⊢
+      split
+      · rename_i hk; rw [if_pos hk] at h; exact ih _ _ _ _ h
+      · rename_i hk
+        rw [if_neg hk] at h
+        cases hm : mf ck vs with
+        | none => rw [hm] at h; cases h
+        | some m =>
+          rw [hm] at h
+          have hm' : totalize mf ck vs = m := by simp [totalize, hm]
+          rw [hm']
+          exact ih _ _ _ _ h
+
+theorem next_totalize (mf : MergeFn) (m : Merger) (h : (Merger.next mf m).2 ≠ .mergeErr) :
+    Merger.next (tot (totalize mf)) m = Merger.next mf m := by
+  cases hpop : heapPop m.heap with
+  | none => simp only [Merger.next, hpop]
+  | some p =>
+    obtain ⟨first, h1⟩ := p
+    simp only [Merger.next, hpop] at h ⊢
+    cases hm : mf first.key
+        (first.val :: List.map MSrc.val (popSame first.key (h1.length + 1) h1 []).1) with
+    | none => rw [hm] at h; exact absurd rfl h
+    | some v =>
+      have hm' : totalize mf first.key
+          (first.val :: List.map MSrc.val (popSame first.key (h1.length + 1) h1 []).1) = v := by
+        simp [totalize, hm]
+      rw [hm']
+
+theorem collect_totalize (mf : MergeFn) : ∀ (fuel : Nat) (m : Merger) (acc : List Entry),
+    (Merger.collect mf fuel m acc).1.isSome →
+    Merger.collect (tot (totalize mf)) fuel m acc = Merger.collect mf fuel m acc := by
+  intro fuel
+  induction fuel with
+  | zero => intro m acc _; rfl
+  | succ fuel ih =>
+    intro m acc h
+    have hne : (Merger.next mf m).2 ≠ .mergeErr := by
+      intro e
+      unfold Merger.collect at h
+      cases hn : Merger.next mf m with
+      | mk m1 r1 =>
+        rw [hn] at h e
+        simp only at e
+        subst e
+        simp at h
+    unfold Merger.collect at h ⊢
+    rw [next_totalize mf m hne]
+    cases hn : Merger.next mf m with
+    | mk m1 r1 =>
+      rw [hn] at h
+      match r1, h with
+      | .ok none, _ => rfl
+      | .ok (some e), h => exact ih m1 (e :: acc) h
+      | .mergeErr, h => simp at h
+
+theorem run_totalize (mf : MergeFn) (srcs : List (List Entry))
+    (h : (Merger.run mf srcs).1.isSome) :
+    Merger.run (tot (totalize mf)) srcs = Merger.run mf srcs :=
+  collect_totalize mf _ _ _ h
+
+theorem writeChunk_totalize {mf : MergeFn} {s s1 : Sorter} (h : Sorter.writeChunk mf s = .ok s1) :
+    Sorter.writeChunk (tot (totalize mf)) s = .ok s1 := by
+  unfold Sorter.writeChunk Sorter.writeChunkWith at h ⊢
+  cases hg : Sorter.mergeGroups mf (Sorter.sortStable s.entries.items) none [] [] with
+  | none => rw [hg] at h; cases h
+  | some r => rw [hg] at h; rw [mergeGroups_totalize mf _ _ _ _ r hg]; exact h
+
+theorem mergeChunks_totalize {mf : MergeFn} {s s1 : Sorter}
+    (h : Sorter.mergeChunks mf s = .ok s1) :
+    Sorter.mergeChunks (tot (totalize mf)) s = .ok s1 := by
+  unfold Sorter.mergeChunks at h ⊢
+  have hs : (Merger.run mf s.chunks).1.isSome := by
+    cases hr : Merger.run mf s.chunks with
+    | mk o m =>
+      rw [hr] at h
+      cases o with
+      | none => cases h
+      | some _ => rfl
+  rw [run_totalize mf _ hs]
+  exact h
+
+theorem insert_totalize {mf : MergeFn} {s s1 : Sorter} {k v : Bytes}
+    (h : Sorter.insert mf s k v = .ok s1) : Sorter.insert (tot (totalize mf)) s k v = .ok s1 := by
+  unfold Sorter.insert at h ⊢
+  cases hf : s.entries.fits k v with
+  | error t => rw [hf] at h; cases h
+  | ok fit =>
+    rw [hf] at h
+    simp only at h ⊢
+    split
+    · rename_i hc; rw [if_pos hc] at h; exact h
+    · rename_i hc
+      rw [if_neg hc] at h
+      cases hw : Sorter.writeChunk mf s with
+      | error e => rw [hw] at h; cases h
+      | ok s2 =>
+        rw [hw] at h
+        rw [writeChunk_totalize hw]
+        simp only at h ⊢
+        cases hi : s2.entries.insert k v 64 with
+        | error t => rw [hi] at h; cases h
+        | ok r =>
+          obtain ⟨e, ev⟩ := r
+          rw [hi] at h
+          simp only at h ⊢
+          split
+          · rename_i hm; rw [if_pos hm] at h; exact mergeChunks_totalize h
+          · rename_i hm; rw [if_neg hm] at h; exact h
+
+theorem insertAll_totalize {mf : MergeFn} : ∀ (kvs : List Entry) (s s1 : Sorter),
+    Sorter.insertAll mf s kvs = .ok s1 → Sorter.insertAll (tot (totalize mf)) s kvs = .ok s1 := by
+  intro kvs
+  induction kvs with
+  | nil => intro s s1 h; exact h
+  | cons e r ih =>
+    intro s s1 h
+    obtain ⟨k, v⟩ := e
+    simp only [Sorter.insertAll] at h ⊢
+    cases hi : Sorter.insert mf s k v with
+    | error e => rw [hi] at h; cases h
+    | ok s2 => rw [hi] at h; rw [insert_totalize hi]; exact ih s2 s1 h
+
+theorem finishChunks_totalize {mf : MergeFn} {s s1 : Sorter}
+    (h : Sorter.finishChunks mf s = .ok s1) :
+    Sorter.finishChunks (tot (totalize mf)) s = .ok s1 := by
+  unfold Sorter.finishChunks at h ⊢
+  cases hw : Sorter.writeChunk mf s with
+  | error e => rw [hw] at h; cases h
+  | ok s2 => rw [hw] at h; rw [writeChunk_totalize hw]; exact h
+
+theorem inserted_totalize {mf : MergeFn} {cfg : SCfg} {kvs : List Entry} {s : Sorter}
+    (h : Inserted mf cfg kvs s) : Inserted (tot (totalize mf)) cfg kvs s := by
+  obtain ⟨s0, hn, hi⟩ := h
+  exact ⟨s0, hn, insertAll_totalize kvs s0 s hi⟩
+
+theorem handed_totalize {mf : MergeFn} {cfg : SCfg} {kvs : List Entry} {s' : Sorter}
+    (h : Handed mf cfg kvs s') : Handed (tot (totalize mf)) cfg kvs s' := by
+  obtain ⟨s, hs, hf⟩ := h
+  exact ⟨s, inserted_totalize hs, finishChunks_totalize hf⟩
+
+/-- Chunk facts for an arbitrary (possibly failing) merge function. -/
+theorem inserted_chunk_any {mf : MergeFn} {cfg : SCfg} {kvs : List Entry} {s : Sorter}
+    (h : Inserted mf cfg kvs s) {c : List Entry} (hc : c ∈ s.chunks) :
+    StrictAsc c ∧ (∃ S, c = G (totalize mf) S) ∧ ∀ k, k ∈ c.map (·.1) → k ∈ kvs.map (·.1) :=
+  inserted_chunk (inserted_totalize h) hc
+
+theorem handed_chunk_any {mf : MergeFn} {cfg : SCfg} {kvs : List Entry} {s' : Sorter}
+    (h : Handed mf cfg kvs s') {c : List Entry} (hc : c ∈ s'.chunks) :
+    StrictAsc c ∧ (∃ S, c = G (totalize mf) S) ∧ ∀ k, k ∈ c.map (·.1) → k ∈ kvs.map (·.1) :=
+  handed_chunk (handed_totalize h) hc
+
 end Grenad.Wave3
